@@ -177,4 +177,132 @@ theorem run_pending {k cap : Nat} {rest : List ROp} {d : List Nat} (hcap : d.len
   | nil => exact h
   | cons t ts ih => exact ih (step_pending hcap h t)
 
+/-! ### the same for `qb_rb_chunk_peek` + copy + `qb_rb_chunk_reclaim` -/
+
+/-- the only way to the "nothing there" exit of a peek is a magic word that is not MAGIC -/
+theorem rstep_pkBad (c : Conf) (hn : c.rpc ≠ .pkBad) (h : (rstep c).rpc = .pkBad) :
+    ∃ p, c.rpc = .pkMg p ∧ c.rb.magic p ≠ MAGIC := by
+  unfold rstep at h
+  split at h
+  · exact absurd h hn
+  · rename_i op rest hp
+    cases hpc : c.rpc
+    all_goals (rw [hpc] at h; dsimp only at h)
+    case pkMg p =>
+      by_cases hm : c.rb.magic p ≠ MAGIC
+      · exact ⟨p, rfl, hm⟩
+      · rw [if_neg hm] at h; cases h
+    case pkBad => exact absurd hpc hn
+    case rcopy p sz j =>
+      exfalso
+      repeat' split at h
+      all_goals cases h
+    all_goals first
+      | (cases h; done)
+      | (simp [Conf.rDone, Conf.addLin] at h; done)
+      | (split at h <;> simp [Conf.rDone, Conf.addLin] at h; done)
+      | (split at h <;> (try split at h) <;> simp [Conf.rDone, Conf.addLin] at h; done)
+      | (cases op <;> simp [Conf.rDone, Conf.addLin] at h; done)
+
+theorem exit_pr_head {c : Conf} {q : List (List Nat)} {f : Bool} {rest : List ROp} {d : List Nat} {ds}
+    (h : CInv c q) (hp : c.rprog = .pr f :: rest) (hq : q = d :: ds) (hnb : c.rpc ≠ .pkBad) {o : Out}
+    (he : Exit c o) : o = .data d := by
+  have hrf := RFacts_get hp h.rf
+  have hne : q ≠ [] := by rw [hq]; simp
+  rcases he with ⟨hpc, htw⟩ | ⟨p, hpc, hm⟩ | hpc | hpc | hpc | ⟨old, hpc, hm⟩ | ⟨n, hpc, rfl⟩
+  · exfalso
+    rcases tryWait_cases c.rb with ⟨hsem, _⟩ | ⟨s, htw', _⟩
+    · have := h.semc 0 hsem
+      rw [hpc, hq] at this
+      simp [rtok] at this
+    · rw [htw] at htw'; cases htw'
+  · rw [hpc] at hrf; exact absurd hrf.1 (by simp [isRead])
+  · rw [hpc] at hrf; exact absurd hrf (by simp [RF])
+  · rw [hpc] at hrf; obtain ⟨cap', d', ds', e1, _⟩ := hrf; cases e1
+  · exact absurd hpc hnb
+  · exfalso
+    rw [hpc] at hrf
+    obtain ⟨d', hrc, hold⟩ := hrf
+    exact hm ((h.magic_iff hold (by rw [hpc]; rfl) (by rw [hpc]; rfl)).mpr hne)
+  · rw [hpc] at hrf
+    obtain ⟨d', ⟨⟨ds', e2⟩, hbuf, _⟩, _⟩ := hrf
+    rw [hq] at e2
+    obtain ⟨rfl, _⟩ := List.cons.inj e2
+    rw [hbuf]
+
+def PendingP (k : Nat) (f : Bool) (rest : List ROp) (d : List Nat) (c : Conf) : Prop :=
+  (c.rOuts.length = k ∧ c.rprog = .pr f :: rest ∧ c.rpc ≠ .pkBad ∧ c.readsOk = okReads c.rOuts ∧
+    ∃ ds, CInv c (d :: ds)) ∨
+  (c.rOuts[k]? = some (.data d))
+
+theorem rOuts_mono (k : Nat) (o : Out) (c : Conf) (t : Tid) (hd : c.rOuts[k]? = some o) :
+    (step c t).rOuts[k]? = some o := by
+  have hlt : k < c.rOuts.length := by
+    rcases Nat.lt_or_ge k c.rOuts.length with h | h
+    · exact h
+    · rw [List.getElem?_eq_none h] at hd; cases hd
+  cases t with
+  | w => show (wstep c).rOuts[k]? = _; rw [(wstep_robs c).2]; exact hd
+  | r =>
+    show (rstep c).rOuts[k]? = _
+    rcases rstep_out c with ⟨_, h2⟩ | ⟨o', _, h2, _⟩
+    · rw [h2]; exact hd
+    · rw [h2, List.getElem?_append_left hlt]; exact hd
+
+theorem step_pendingP {k : Nat} {f : Bool} {rest : List ROp} {d : List Nat} {c : Conf}
+    (h : PendingP k f rest d c) (t : Tid) : PendingP k f rest d (step c t) := by
+  rcases h with ⟨hk, hp, hnb, hobs, ds, hi⟩ | hdone
+  · cases t with
+    | w =>
+      show PendingP k f rest d (wstep c)
+      left
+      have hr := wstep_robs c
+      have hrs : (wstep c).rprog = c.rprog ∧ (wstep c).rpc = c.rpc := by
+        unfold wstep
+        repeat' split
+        all_goals (try dsimp only)
+        all_goals (repeat' split)
+        all_goals first
+          | exact ⟨rfl, rfl⟩
+          | (cases c.rb.sem <;> exact ⟨rfl, rfl⟩)
+      refine ⟨by rw [hr.2]; exact hk, by rw [hrs.1]; exact hp, by rw [hrs.2]; exact hnb,
+        by rw [hr.1, hr.2]; exact hobs, ?_⟩
+      rcases wstep_inv hi with h' | ⟨op, r', _, h'⟩
+      · exact ⟨ds, h'⟩
+      · exact ⟨ds ++ [op.data], h'⟩
+    | r =>
+      show PendingP k f rest d (rstep c)
+      have hobs' := rstep_obs c hobs
+      rcases rstep_out c with ⟨h1, h2⟩ | ⟨o, h1, h2, he⟩
+      · left
+        refine ⟨by rw [h2]; exact hk, by rw [h1]; exact hp, ?_, hobs', ?_⟩
+        · intro e
+          obtain ⟨p, hpc, hm⟩ := rstep_pkBad c hnb e
+          have hrf := RFacts_get hp hi.rf
+          rw [hpc] at hrf
+          exact hm ((hi.magic_iff hrf.2 (by rw [hpc]; rfl) (by rw [hpc]; rfl)).mpr (by simp))
+        · rcases rstep_inv hi with h' | ⟨d', ds', e, _, h'⟩
+          · exact ⟨ds, h'⟩
+          · exfalso
+            have hw := (rstep_wside c).1
+            have a := hi.hq
+            have b := h'.hq
+            rw [hw, a, hobs', h2, ← hobs] at b
+            have := List.append_cancel_left b
+            have hl := congrArg List.length this
+            obtain ⟨_, rfl⟩ := List.cons.inj e
+            simp at hl
+      · right
+        have := exit_pr_head hi hp rfl hnb he
+        subst this
+        rw [h2, ← hk]
+        simp
+  · exact .inr (rOuts_mono k _ c t hdone)
+
+theorem run_pendingP {k : Nat} {f : Bool} {rest : List ROp} {d : List Nat} {c : Conf}
+    (h : PendingP k f rest d c) (sched : List Tid) : PendingP k f rest d (run c sched) := by
+  induction sched generalizing c with
+  | nil => exact h
+  | cons t ts ih => exact ih (step_pendingP h t)
+
 end QbVerif.RingConcLemmas
